@@ -1465,7 +1465,9 @@ def run(ctx):
 
     mpit = 24
 
-    def pit_case(n, m, random, obs_as_column=False):
+    def pit_case(n, m, random, obs_as_column=False, invalid_rows=None):
+        """invalid_rows = k: k of the n forecasts have a NaN observation or an all-NaN ensemble (they are
+        skipped by the implementation: n - k forecasts are left)"""
         cst = rng.choice([0.3, 0.0, 0.5, 0.25, round(rng.uniform(0, 0.5), 3)])
         above_cap = rng.random() < 0.05
         if above_cap:
@@ -1489,8 +1491,14 @@ def run(ctx):
                 row = [censor + rng.randint(-4, 8) * step for _ in range(m)]
             obs.append(o)
             ens.append(row)
-        nan_mode = rng.random()
+        nan_mode = rng.random() if invalid_rows is None else 1.0
         has_nan = False
+        for i in rng.sample(range(n), invalid_rows or 0):
+            if rng.random() < 0.5:
+                obs[i] = float("nan")
+            else:
+                ens[i] = [float("nan")] * m
+            has_nan = True
         if nan_mode < 0.08:
             obs[rng.randrange(n)] = float("nan")
             has_nan = True
@@ -1581,6 +1589,12 @@ def run(ctx):
                 for col in ((False, True) if n > 1 else (False,)):
                     for _ in range(ctx.scale(2, 8)):
                         pit_case(n, m, random, col)
+    # ... and 1, 2 forecasts LEFT once the forecasts without data are skipped
+    for n, k in [(2, 1), (3, 2), (3, 1), (4, 3), (4, 2), (6, 5)]:
+        for m in SMALL_SIZES:
+            for random in (False, True):
+                for _ in range(ctx.scale(1, 4)):
+                    pit_case(n, m, random, rng.random() < 0.3, invalid_rows=k)
     for it in range(ctx.scale(260, 4000)):
         n = rng.choice([1, 2, 3, rng.randint(1, 8)])
         m = rng.choice([1, 2, 3, 11, 22, rng.randint(1, mpit)])
